@@ -118,8 +118,7 @@ class CFG:
         self._with_stack: list[int] = []
         body = fnode.body if not isinstance(fnode, ast.Lambda) else [ast.Return(value=fnode.body)]
         last = self._seq(body, [self.entry])
-        for n in last:
-            self._edge(n, self.exit)
+        self._link(last, self.exit)
         self._facts: Optional[dict[int, frozenset]] = None
         self._idom: Optional[dict[int, int]] = None
         self._ipdom: Optional[dict[int, int]] = None
